@@ -40,3 +40,23 @@ for name, m in sorted(repo.modules.items()):
         out[name] = tab
 json.dump(out, open(os.path.join(shapes.TABLES, "loop_stores.json"), "w"), indent=0, sort_keys=True)
 print(sum(len(r) for v in out.values() for r in v.values()), "per-item stores depending on their loop variable")
+
+# loop variables read after their loop and skip-item handlers on the reviewed tree (reference of shapes.loop_scope_rule)
+ra, sk = {}, {}
+for name, m in sorted(repo.modules.items()):
+    rows, tab = set(), {}
+    for fi in m.all_functions():
+        try:
+            for v, lp, r in shapes.loop_targets_read_after(repo, fi):
+                rows.add((fi.qualname, v))
+        except Exception as e:
+            print("skip", fi.fq, e)
+        h = shapes.skip_item_handlers(fi)
+        if h:
+            tab[fi.qualname] = [list(x) for x in h]
+    if rows:
+        ra[name] = sorted(rows)
+    if tab:
+        sk[name] = tab
+json.dump({"read_after": ra, "skip_handlers": sk}, open(os.path.join(shapes.TABLES, "loop_scope.json"), "w"), indent=0, sort_keys=True)
+print(sum(len(v) for v in ra.values()), "loop variables read after their loop (reviewed),", sum(len(x) for v in sk.values() for x in v.values()), "skip-item handlers")
